@@ -1034,7 +1034,7 @@ pub fn run(tier: &str) -> i32 {
   rep.set("creation_orders", json!(orders().len()));
   rep.set("distinct_nontrivial", json!(classes.len()));
   rep.set("exhaustive", json!(true));
-  rep.set("rule", json!("all 35 interleavings of P1<topic<writer<first writes and P2<topic<reader; quick: each with a 4 s pause before the later endpoint creation, durability alternating, plus deletion of reader / writer / the reader's participant, a no_key, a fragmented and a lossy scenario; thorough: x {Volatile, TransientLocal} x pause at no / every single position / before both endpoint creations, and on the orders that start P1,P2: payload sizes on both sides of the 1024-byte fragment limit in every residue mod 4 and 5000 bytes, no_key, deterministic loss (datagram k dropped when splitmix64(k, pattern) mod m = 0, six (m, pattern)), the five deletion scenarios (reader, writer, the reader's participant; reader then a new writer, writer then a new reader, which must find nothing to match); security enabled: 4 scenarios in quick, 66 in thorough (6 governance documents x 11 topics of all metadata x data protection kinds, payload sizes 10 / 13 / 1501 bytes, three orders). After the steps both sides must report the match within 30 s, a second batch (three values and one instance disposal) is written, and the reader must take exactly the acceptable sequence (TransientLocal: everything; Volatile late joiner: nothing of the first batch) within 30 s and nothing more; deletions must be observed as an unmatch within 30 s. Three participants (4 scenarios in quick, 64 in thorough): P3 carries a second reader or a second writer on the topic; 16 creation orders of the three chains (each permutation of the chains one after the other, layered, layered with the first writes straight after the writer, round robin) x {second reader, second writer} x durability, some fragmented / with a pause / lossy; every compatible pair must report its match (the writer exactly 2 readers, or the reader exactly 2 writers), each reader must take each writer's stream complete and in order under the same late-joiner rules, and on the TransientLocal ones P3 is then deleted as a whole: its counterpart must see exactly one unmatch, the other endpoint of the first pair none, and a third batch must still arrive completely"));
+  rep.set("rule", json!("all 35 interleavings of P1<topic<writer<first writes and P2<topic<reader; quick: each with a 4 s pause before the later endpoint creation, durability alternating, plus deletion of reader / writer / the reader's participant, a no_key, a fragmented and a lossy scenario; thorough: x {Volatile, TransientLocal} x pause at no / every single position / before both endpoint creations, and on the orders that start P1,P2: payload sizes on both sides of the 1024-byte fragment limit in every residue mod 4 and 5000 bytes, no_key, deterministic loss (datagram k dropped when splitmix64(k, pattern) mod m = 0, six (m, pattern)), the five deletion scenarios (reader, writer, the reader's participant; reader then a new writer, writer then a new reader, which must find nothing to match); security enabled: 4 scenarios in quick, 66 in thorough (6 governance documents x 11 topics of all metadata x data protection kinds, payload sizes 10 / 13 / 1501 bytes, three orders). After the steps both sides must report the match within 30 s, a second batch (three values and one instance disposal) is written, and the reader must take exactly the acceptable sequence (TransientLocal: everything; Volatile late joiner: nothing of the first batch) within 30 s and nothing more; deletions must be observed as an unmatch within 30 s; in one quick and three thorough scenarios the writer's participant instead goes silent without a dispose (the network seam drops everything it sends): the reader must see the unmatch after the 10 s lease (within 45 s) and not within the first 6 s. Three participants (4 scenarios in quick, 64 in thorough): P3 carries a second reader or a second writer on the topic; 16 creation orders of the three chains (each permutation of the chains one after the other, layered, layered with the first writes straight after the writer, round robin) x {second reader, second writer} x durability, some fragmented / with a pause / lossy; every compatible pair must report its match (the writer exactly 2 readers, or the reader exactly 2 writers), each reader must take each writer's stream complete and in order under the same late-joiner rules, and on the TransientLocal ones P3 is then deleted as a whole: its counterpart must see exactly one unmatch, the other endpoint of the first pair none, and a third batch must still arrive completely"));
   rep.set("three_party_scenarios", json!(scs.iter().filter(|s| s.third.is_some()).count()));
   rep.set("three_party_creation_orders", json!(orders3().len()));
   rep.push_sample(json!(scs[0]));
